@@ -8,9 +8,14 @@ EXPLANATION = (
     "decided. Decided on the MIR of the current tree, for all inputs: (R1) 'never exceeds the requested maximum': "
     "every Cone::step_length implementation (7 cone types + composite + enum dispatch) returns values derived from "
     "its alpha_max argument only through min(alpha_max-derived, .), selection, literal zero, or multiplication by "
-    "the backtracking factor; (R2) composite ordering symmetric -> cap -> nonsymmetric; (R3) the SOC routine's "
+    "the backtracking factor; (R2) the composite runs two complementary passes so every cone limits the step exactly once, and caps by max_step_fraction iff some cone is nonsymmetric (no pass order is demanded: either satisfies the property, and the pinned code runs the nonsymmetric cones first, contrary to its comment); (R3) the SOC routine's "
     "explicit panic is dead by c = max(0,.); (R4) the nonsymmetric cones search (dz,z) with the dual and (ds,s) "
-    "with the primal membership test and agree with their siblings on (alpha_init, alpha_min, step).")
+    "with the primal membership test and agree with their siblings on (alpha_init, alpha_min, step); (R5) the "
+    "initial shift into the interior is sign-exact: with a component outside its cone the margin is cancelled "
+    "first and target = max(1, .) added afterwards, as two separate shifts (a merged or reversed shift rounds the "
+    "worst component onto the boundary); composite margin = min over cones, shift forwarded unchanged; (R6) the "
+    "second-order cone routine applies the scalar-part cap min(alpha_max, -x0/y0) before every return, including the "
+    "three early exits of the root computation.")
 ASSUMPTIONS = [
     'rustc MIR construction and trait resolution are correct',
     'alpha_max >= 0; 0 <= linesearch_backtrack_step <= 1 (settings are not validated by the crate)',
@@ -28,3 +33,5 @@ def run(ctx, rep, tier):
         steplen.soc_dead_panic(rep, F, tag, 'C15.R3')
         steplen.backtrack_pairing(rep, F, tag, 'C15.R4')
         steplen.interior_shift(rep, F, tag, 'C15.R5')
+        steplen.soc_scalar_cap(rep, F, tag, 'C15.R6')
+        steplen.soc_linear_case(rep, F, tag, 'C15.R7')
